@@ -210,7 +210,13 @@ func reachesFunc(p *core.Prog, fn, target *ssa.Function, depth int) bool {
 // connectives compiled to branches and phis). ok=false if the body does
 // anything else.
 func evalTypePredicate(fn *ssa.Function, typeField *types.Var, t int64) (val bool, ok bool) {
-	if fn == nil || len(fn.Blocks) == 0 {
+	return evalTypePredicateIn(fn, typeField, t, nil, 0)
+}
+
+// evalTypePredicateIn: bind gives the values of the parameters of a helper the
+// predicate delegates to (a.accountType.IsAL()).
+func evalTypePredicateIn(fn *ssa.Function, typeField *types.Var, t int64, bind map[*ssa.Parameter]int64, depth int) (val bool, ok bool) {
+	if fn == nil || len(fn.Blocks) == 0 || depth > 3 {
 		return false, false
 	}
 	vals := map[ssa.Value]int64{} // ints and bools (0/1)
@@ -230,6 +236,31 @@ func evalTypePredicate(fn *ssa.Function, typeField *types.Var, t int64) (val boo
 				}
 				return 0, true
 			}
+		case *ssa.Parameter:
+			if k, ok := bind[x]; ok {
+				return k, true
+			}
+		case *ssa.Call:
+			callee := x.Call.StaticCallee()
+			if callee == nil || callee.Blocks == nil || core.PkgPathOf(callee) != core.PkgPathOf(fn) || len(x.Call.Args) != len(callee.Params) {
+				return 0, false
+			}
+			nb := map[*ssa.Parameter]int64{}
+			for i, a := range x.Call.Args {
+				k, ok := eval(a)
+				if !ok {
+					return 0, false
+				}
+				nb[callee.Params[i]] = k
+			}
+			r, ok := evalTypePredicateIn(callee, typeField, t, nb, depth+1)
+			if !ok {
+				return 0, false
+			}
+			if r {
+				return 1, true
+			}
+			return 0, true
 		case *ssa.Field:
 			if core.FieldOf(x) == typeField {
 				return t, true
@@ -238,6 +269,12 @@ func evalTypePredicate(fn *ssa.Function, typeField *types.Var, t int64) (val boo
 			if x.Op == token.MUL {
 				if fa, ok := x.X.(*ssa.FieldAddr); ok && core.FieldOf(fa) == typeField {
 					return t, true
+				}
+				// a parameter spilled to a local
+				if al, ok := x.X.(*ssa.Alloc); ok {
+					if st := core.StoresTo(al); len(st) == 1 {
+						return eval(st[0].Val)
+					}
 				}
 			}
 			if x.Op == token.NOT {
@@ -318,7 +355,7 @@ func evalTypePredicate(fn *ssa.Function, typeField *types.Var, t int64) (val boo
 			case *ssa.Jump:
 				prev = b
 				b = b.Succs[0]
-			case *ssa.DebugRef, *ssa.Alloc, *ssa.Store, *ssa.FieldAddr, *ssa.UnOp, *ssa.BinOp, *ssa.Field, *ssa.Convert, *ssa.ChangeType:
+			case *ssa.DebugRef, *ssa.Alloc, *ssa.Store, *ssa.FieldAddr, *ssa.UnOp, *ssa.BinOp, *ssa.Field, *ssa.Convert, *ssa.ChangeType, *ssa.Call:
 				// values are evaluated on demand; a spilled receiver (Alloc+Store) is harmless
 			default:
 				return false, false
